@@ -310,20 +310,26 @@ impl<S: Spec, IC: StackIc<S::Idx>> Sut for StackSut<S, IC> {
         let mut it2 = it.clone();
         let mut count = 0usize;
         let saved_full = cx.full;
+        let saved_oob = cx.oob;
         cx.full = false;
+        // per-item out-of-bounds probes belong to the handle re-reads, not to the sequence pass
+        cx.oob = false;
         for (i, item) in it.take(n + 1).enumerate() {
             if i >= n {
                 cx.full = saved_full;
+                cx.oob = saved_oob;
                 return Err(Fail::new(Kind::Agree, format!("iter() yields more than len() = {n} items")));
             }
             if let Err(mut f) = S::check_item(item, &model[i].1, cx) {
                 cx.full = saved_full;
+                cx.oob = saved_oob;
                 f.detail = format!("iter position {i}: {}", f.detail);
                 return Err(f);
             }
             count += 1;
         }
         cx.full = saved_full;
+        cx.oob = saved_oob;
         if count != n {
             return Err(Fail::new(Kind::Agree, format!("iter() yields {count} items, len() = {n}")));
         }
@@ -352,8 +358,10 @@ impl<S: Spec, IC: StackIc<S::Idx>> Sut for StackSut<S, IC> {
                 None => return Err(Fail::new(Kind::Agree, format!("cloned iterator ended after {k} of {n} items"))),
                 Some(item) => {
                     cx.full = false;
+                    cx.oob = false;
                     let r = S::check_item(item, &model[k].1, cx);
                     cx.full = saved_full;
+                    cx.oob = saved_oob;
                     r.map_err(|mut f| {
                         f.detail = format!("cloned iterator position {k}: {}", f.detail);
                         f
@@ -375,8 +383,7 @@ impl<S: Spec, IC: StackIc<S::Idx>> Sut for StackSut<S, IC> {
         }
         // get(i), i >= len must fail-stop
         if cx.oob {
-            for off in [0usize, 1, 5] {
-                let i = n + off;
+            for i in [n, n + 1, n + 5, usize::MAX, usize::MAX - 1] {
                 let r = catch(|| {
                     let _ = self.s.get(i);
                 });
